@@ -7,6 +7,7 @@ import (
 	"sort"
 	"strconv"
 	"strings"
+	"sync"
 	"time"
 
 	"golang.org/x/exp/rand"
@@ -19,6 +20,10 @@ func getSource() *rand.PCGSource {
 }
 
 var randSource = getSource()
+
+// randSourceMu guards randSource: every Context without a seed of its own falls back to
+// this one generator, and separate Contexts may be used from different goroutines.
+var randSourceMu sync.Mutex
 
 func _roll32(src *rand.PCGSource, dicePoints int) int {
 	// 注: int的长度至少为32位，也可以高于此数，此处只是当作32位处理
@@ -73,6 +78,8 @@ func Roll(src *rand.PCGSource, dicePoints IntType, mod int) IntType {
 		return dicePoints
 	}
 	if src == nil {
+		randSourceMu.Lock()
+		defer randSourceMu.Unlock()
 		src = randSource
 	}
 
